@@ -447,11 +447,21 @@ def hex_order_files(rng, n_variants=24):
 def tet_cell_files(rng):
     """(label, bytes, must_reject) of files of tetrahedral topology type, to be read by the tetrahedral class with the topology
     check on: (a) two two-triangle pillows (four triangles whose halfedges are matched pairwise, six vertices: must be rejected
-    since the fix "checked tet add_cell must reject four triangles that are not a tetrahedron"), (b) a proper tetrahedron"""
+    since the fix "checked tet add_cell must reject four triangles that are not a tetrahedron"), (b) a proper tetrahedron,
+    (c) pillows on four vertices"""
     out = []
     x = Desc("tet_two_pillows", "tet"); b = Builder(x); b.v(6)
     f0 = b.hf((0, 1, 2)); f1 = b.hf((3, 4, 5)); x.C.append([f0, f0 ^ 1, f1, f1 ^ 1]); x.topo = "tet"
     out.append(("tet_two_pillows", serialize(file_ast(x)), True))
+    # (c) two pillows on FOUR vertices: (0,1,2) and (1,2,3), the second over a parallel edge 1-2, each on both sides - [hf, opp hf, x, opp x]
+    # or, with duplicate faces, without an opposite pair by handle: four distinct vertices, every halfedge matched once; must be rejected
+    # since the fix "checked tet add_cell must reject four triangles on fewer than four vertex triples" (814053a)
+    p = Desc("tet_pillows4_parallel_edge", "tet"); b = Builder(p); b.v(4); f0 = b.hf((0, 1, 2))
+    p.E += [(1, 2), (2, 3), (3, 1)]; p.F.append([6, 8, 10]); p.C.append([f0, f0 ^ 1, 2, 3]); p.topo = "tet"
+    out.append(("tet_pillows4_parallel_edge", serialize(file_ast(p)), True))
+    q = Desc("tet_pillows4_duplicate_faces", "tet"); b = Builder(q); b.v(4); b.hf((0, 1, 2))
+    q.E += [(1, 2), (2, 3), (3, 1)]; q.F += [list(q.F[0]), [6, 8, 10], [6, 8, 10]]; q.C.append([0, 3, 4, 7]); q.topo = "tet"
+    out.append(("tet_pillows4_duplicate_faces", serialize(file_ast(q)), True))
     y = Desc("tet_proper", "tet"); b = Builder(y); v = b.v(4); b.tet(*v); y.topo = "tet"
     out.append(("tet_proper", serialize(file_ast(y)), None))
     return out
